@@ -27,10 +27,12 @@ theorem fulfill_settled (f : Flags) (hm : f.mutable = false) (hr : f.relay = fal
 theorem fail_unset (v : Option Nat) (e : Option ErrV) : fail none v e = (some ⟨v, e⟩, true) := by
   cases v <;> simp [fail, messageState, zero]
 
-theorem fail_settled (r0 : Res) (hs : r0.settled = true) (v : Option Nat) (e : Option ErrV) :
+theorem fail_set (r0 : Res) (v : Option Nat) (e : Option ErrV) :
     fail (some r0) v e = (some r0, false) := by
-  cases r0 with | mk val err =>
-  cases val <;> cases err <;> simp_all [fail, messageState, Res.settled]
+  simp [fail, messageState]
+
+theorem fail_settled (r0 : Res) (_hs : r0.settled = true) (v : Option Nat) (e : Option ErrV) :
+    fail (some r0) v e = (some r0, false) := fail_set r0 v e
 
 /-! ### the invariant -/
 
